@@ -55,6 +55,8 @@ pub struct SenderObs {
     pub st: AckState,
     /// state before the most recent peer packet (for same-instant ambiguity)
     pub prev: AckState,
+    pub mss0: usize,
+    pub peer_max_payload: usize,
 }
 
 #[derive(Clone, Debug, PartialEq, Eq)]
@@ -66,7 +68,7 @@ pub enum TxKind {
 impl SenderObs {
     pub fn new(expected_first: u16, initial_wnd: u32, mss0: usize) -> Self {
         let st = AckState { cum: -1, sacked: BTreeSet::new(), wnd: initial_wnd, acked_bytes: 0, poss_recovery: false, poss_loss_event: false, sack_streak: 0, recovery_point: -1, dup_count: 0, last_pure: None, ever_sack: false, t_last_rx: 0, t_last_advance: 0, mss_now: mss0, n_rx: 0 };
-        SenderObs { first_seq: None, expected_first, segs: BTreeMap::new(), highest: -1, fin_rel: None, fin_times: vec![], prev: st.clone(), st }
+        SenderObs { first_seq: None, expected_first, segs: BTreeMap::new(), highest: -1, fin_rel: None, fin_times: vec![], prev: st.clone(), st, mss0, peer_max_payload: 0 }
     }
 
     /// unwrapped index of `seq` relative to the first data seq: resolved around the highest
@@ -96,7 +98,19 @@ impl SenderObs {
         let k = self.rel(p.seq);
         self.first_seq.get_or_insert(p.seq);
         let kind = if k > self.highest { TxKind::First } else { TxKind::Retransmission };
-        let mss = self.st.mss_now;
+        // proven size when this segment is first sent: the largest acknowledged payload, taking for each
+        // acknowledged segment the cut that was on the wire last at or before the instant of its ack (a probe that
+        // expires at the very instant its ack arrives is re-cut first; the ack then covers the shorter cut), or
+        // whatever larger size the peer itself sent
+        let mss = if self.segs.get(&k).is_none_or(|g| g.lens.is_empty()) {
+            let mut m = self.mss0;
+            for g in self.segs.values() {
+                let Some(ta) = [g.cum_acked_at, g.sacked_at].into_iter().flatten().min() else { continue };
+                if ta > t { continue; }
+                if let Some(i) = g.times.iter().rposition(|x| *x <= ta) { m = m.max(g.lens[i]); }
+            }
+            m.max(self.peer_max_payload)
+        } else { 0 };
         let g = self.segs.entry(k).or_default();
         if g.lens.is_empty() {
             g.first_payload = p.payload.clone();
@@ -126,6 +140,7 @@ impl SenderObs {
         s.t_last_rx = t;
         if p.ptype == refparse::ST_DATA {
             s.mss_now = s.mss_now.max(p.payload.len());
+            self.peer_max_payload = self.peer_max_payload.max(p.payload.len());
         }
         // an ack beyond what was sent acknowledges everything sent so far *and* (this is what the
         // implementation does) segments that are queued but were never transmitted: their numbers
